@@ -59,6 +59,9 @@ pub fn cmd_registry(args: &[String]) -> i32 {
     for (t, n, v) in &consts {
         writeln!(out, "{}", json!({"kind":"const","type":t,"name":n,"value":v})).unwrap();
     }
+    for (a, b, dom, f) in crate::generated_convs::discovered() {
+        conv(&mut out, a, &format!("discovered:From<{}> for {}", a, b), dom, |v| f(v));
+    }
     for (t, n, v) in crate::generated_consts::discovered() {
         writeln!(out, "{}", json!({"kind":"alias","type":t,"name":n,"value":v})).unwrap();
     }
